@@ -22,6 +22,7 @@ CLAIMED = {
  "C17": ("7 C17", "TLC model checking of the moves with every random draw explicit (every sequence over 3 letters up to a bound x every frozen set x every outcome of the draws: only rearranges, keeps frozen, swaps succeed, carried delta-max valid) + every such case replayed into the real backend move through an RNG tape + TLC trace validation (Trace_Moves) of chains of random moves, get_shuffled_sequence and get_permutant recorded with a seeded RNG", NOTE + "; which child a given draw produces is compared with the spec's transcription only as a conformance note"),
  "C18": ("7 C18", "TLC model checking of the Wang-Landau state machine over bins (every start bin, proposal and allowed decision to a bounded depth: NeverLeavesWindow, CountRule, FlatRule, NoEarlyReset, ScheduleRule, GIncrement, StopRule) + TLC trace validation (Trace_WL) of real run_normal_WL runs recorded through the guarded hook and a seeded recording RNG: every step, flat check, the returned array and the DOS / histogram / glog / sequence-log files", NOTE + "; math.log used by the encoder to put ln f and ln p on the 2^-k grid (residual-checked)"),
  "C19": ("7 C19", "TLC model checking of the figure geometry (the five region polygons are read from the real figure and, for every composition up to a bound, the marker must lie in the closed polygon of its region and in no other's interior, exact integer arithmetic) + TLC trace validation (Trace_Plots) of the figure records of every diagram-of-states / Uversky entry point x argument combinations and of the linear-profile bar plots", NOTE + "; matplotlib's object model (Agg) is read, not pixels"),
+ "C09": ("7 C09", "TLC model checking of the isoelectric-point bisection as a state machine against every monotone three-zone sign oracle on a 1/16 pH grid (never raises, result in the zone, terminates under fairness) + TLC trace validation of get_FCR/NCPR/mean_net_charge/fraction_expanding(pH) as Henderson-Hasselbalch sums (0.1 pH grid x single residues and extreme compositions with a 10^x table TLC verifies by a tenth-power bracket; random sequences x random pH with a trusted kernel), rejection outside [0,14], and of get_isoelectric_point (neutral within 0.02 at the returned pH)", NOTE + "; 10^x for off-grid pH computed by the harness with 60-digit decimals"),
  "C05": ("7 C05", "TLC model checking (delta numerator, SCD coefficients and delta-max invariant under reversal / inversion / p<->n for every pattern up to a bound) + replay of every state with random class-preserving substitutions, reversal and inversion into the five getters + TLC trace validation of base and variants on long random sequences", NOTE),
  "C07": ("7 C07", "TLC model checking of the SCD coefficients (zero with < 2 charges, pattern-only, symmetric) + replay of every pattern up to a bound into get_SCD + TLC trace validation on long random / strongly correlated sequences with a sqrt table whose bracket TLC verifies", NOTE),
  "C02": ("7 C02", "TLC model checking of the patterning spec (every charge pattern up to a length bound is a state; the scaled-integer delta is shown equal to the Das-Pappu definition in exact rationals) + replay of every TLC state into get_delta + TLC trace validation (Trace_Queries) of get_delta replies recorded from the real code on long random sequences with random call histories",
